@@ -84,20 +84,101 @@ fn err_or<T>(r: Result<T, sas_lexer::error::ErrorKind>, f: impl FnOnce(T) -> u64
     }
 }
 
-/// Walks the buffer through every public accessor. `tick` is called once per token
-/// (a harness-side yield point for readers of shared results).
-pub fn dump_buffer<S: Sink, A: AsRef<str>>(
-    s: &mut S,
-    src: &A,
-    buf: &TokenizedBuffer,
-    tick: &mut dyn FnMut(),
+/// Everything the per-token accessors return for one token.
+#[derive(Default, Clone)]
+struct Acc<'a> {
+    nums: [u64; 10],
+    payload: Option<Result<Payload, u16>>,
+    raw: Option<Result<Option<&'a str>, u16>>,
+    res: Option<Result<Option<&'a str>, u16>>,
+    lit: Option<Result<&'a str, u16>>,
+}
+
+const N_ACCESSORS: usize = 14;
+const ACC_NAMES: [&str; 10] = [
+    "a_byte", "a_start", "a_end_byte", "a_end", "a_line", "a_end_line", "a_col", "a_end_col", "a_ty", "a_ch",
+];
+
+fn call_accessor<'a, A: AsRef<str>>(
+    k: usize,
+    buf: &'a TokenizedBuffer,
+    src: &'a A,
+    tidx: sas_lexer::TokenIdx,
+    info_payload: Payload,
+    rec: &mut Acc<'a>,
 ) {
+    match k {
+        0 => rec.nums[0] = err_or(buf.get_token_start_byte_offset(tidx), |v| u64::from(v.get())),
+        1 => rec.nums[1] = err_or(buf.get_token_start(tidx), |v| u64::from(v.get())),
+        2 => rec.nums[2] = err_or(buf.get_token_end_byte_offset(tidx), |v| u64::from(v.get())),
+        3 => rec.nums[3] = err_or(buf.get_token_end(tidx), |v| u64::from(v.get())),
+        4 => rec.nums[4] = err_or(buf.get_token_start_line(tidx), u64::from),
+        5 => rec.nums[5] = err_or(buf.get_token_end_line(tidx), u64::from),
+        6 => rec.nums[6] = err_or(buf.get_token_start_column(tidx), u64::from),
+        7 => rec.nums[7] = err_or(buf.get_token_end_column(tidx), u64::from),
+        8 => rec.nums[8] = err_or(buf.get_token_type(tidx), |v| v as u64),
+        9 => rec.nums[9] = err_or(buf.get_token_channel(tidx), |v| v as u64),
+        10 => rec.payload = Some(buf.get_token_payload(tidx).map_err(|e| e as u16)),
+        11 => rec.raw = Some(buf.get_token_raw_text(tidx, src).map_err(|e| e as u16)),
+        12 => rec.res = Some(buf.get_token_resolved_text(tidx, src).map_err(|e| e as u16)),
+        _ => {
+            if let Payload::StringLiteral(a, b) = info_payload {
+                rec.lit = Some(buf.get_string_literal(a, b).map_err(|e| e as u16));
+            }
+        }
+    }
+}
+
+/// Walks the buffer through every public accessor. `tick` is called about once per token
+/// (a harness-side yield point for readers of shared results). `variant` changes only the
+/// ORDER in which the accessors are called (0 token-major, 1 accessor-major, 2 everything
+/// backwards, 3 bulk view first); what is emitted is always in canonical order, so every
+/// variant must produce the same dump.
+pub fn dump_buffer<'a, S: Sink, A: AsRef<str>>(
+    s: &mut S,
+    src: &'a A,
+    buf: &'a TokenizedBuffer,
+    tick: &mut dyn FnMut(),
+    variant: u32,
+) {
+    let infos: Vec<(sas_lexer::TokenIdx, sas_lexer::TokenInfo)> =
+        buf.iter_tokens_infos().map(|(t, i)| (t, *i)).collect();
+    let n = infos.len();
+    let resolved_first = if variant == 3 { Some(buf.into_resolved_token_vec()) } else { None };
+    let mut recs: Vec<Acc<'a>> = vec![Acc::default(); n];
+    match variant {
+        1 => {
+            for k in 0..N_ACCESSORS {
+                for (j, (tidx, info)) in infos.iter().enumerate() {
+                    if j % N_ACCESSORS == k {
+                        tick();
+                    }
+                    call_accessor(k, buf, src, *tidx, info.payload(), &mut recs[j]);
+                }
+            }
+        }
+        2 => {
+            for (j, (tidx, info)) in infos.iter().enumerate().rev() {
+                tick();
+                for k in (0..N_ACCESSORS).rev() {
+                    call_accessor(k, buf, src, *tidx, info.payload(), &mut recs[j]);
+                }
+            }
+        }
+        _ => {
+            for (j, (tidx, info)) in infos.iter().enumerate() {
+                tick();
+                for k in 0..N_ACCESSORS {
+                    call_accessor(k, buf, src, *tidx, info.payload(), &mut recs[j]);
+                }
+            }
+        }
+    }
     s.section("tokens");
     s.num("token_count", u64::from(buf.token_count()));
     s.num("line_count", u64::from(buf.line_count()));
     s.end_row();
-    for (tidx, info) in buf.iter_tokens_infos() {
-        tick();
+    for (j, (tidx, info)) in infos.iter().enumerate() {
         s.num("i", u64::from(tidx.get()));
         s.num("ch", info.channel() as u64);
         s.num("ty", info.token_type() as u64);
@@ -106,68 +187,52 @@ pub fn dump_buffer<S: Sink, A: AsRef<str>>(
         s.num("line", u64::from(info.line()));
         payload(s, info.payload());
         // accessor view
-        s.num(
-            "a_byte",
-            err_or(buf.get_token_start_byte_offset(tidx), |v| u64::from(v.get())),
-        );
-        s.num(
-            "a_start",
-            err_or(buf.get_token_start(tidx), |v| u64::from(v.get())),
-        );
-        s.num(
-            "a_end_byte",
-            err_or(buf.get_token_end_byte_offset(tidx), |v| u64::from(v.get())),
-        );
-        s.num(
-            "a_end",
-            err_or(buf.get_token_end(tidx), |v| u64::from(v.get())),
-        );
-        s.num("a_line", err_or(buf.get_token_start_line(tidx), u64::from));
-        s.num("a_end_line", err_or(buf.get_token_end_line(tidx), u64::from));
-        s.num("a_col", err_or(buf.get_token_start_column(tidx), u64::from));
-        s.num(
-            "a_end_col",
-            err_or(buf.get_token_end_column(tidx), u64::from),
-        );
-        s.num("a_ty", err_or(buf.get_token_type(tidx), |v| v as u64));
-        s.num("a_ch", err_or(buf.get_token_channel(tidx), |v| v as u64));
-        match buf.get_token_payload(tidx) {
-            Ok(p) => payload(s, p),
-            Err(e) => s.num("a_payload_err", u64::from(e as u16)),
+        let rec = &recs[j];
+        for (k, name) in ACC_NAMES.iter().enumerate() {
+            s.num(name, rec.nums[k]);
         }
-        match buf.get_token_raw_text(tidx, src) {
-            Ok(t) => s.text("raw", t),
-            Err(e) => s.num("raw_err", u64::from(e as u16)),
+        match rec.payload {
+            Some(Ok(p)) => payload(s, p),
+            Some(Err(e)) => s.num("a_payload_err", u64::from(e)),
+            None => {}
         }
-        match buf.get_token_resolved_text(tidx, src) {
-            Ok(t) => s.text("res", t),
-            Err(e) => s.num("res_err", u64::from(e as u16)),
+        match rec.raw {
+            Some(Ok(t)) => s.text("raw", t),
+            Some(Err(e)) => s.num("raw_err", u64::from(e)),
+            None => {}
         }
-        if let Payload::StringLiteral(a, b) = info.payload() {
-            match buf.get_string_literal(a, b) {
-                Ok(t) => s.text("lit", Some(t)),
-                Err(e) => s.num("lit_err", u64::from(e as u16)),
-            }
+        match rec.res {
+            Some(Ok(t)) => s.text("res", t),
+            Some(Err(e)) => s.num("res_err", u64::from(e)),
+            None => {}
+        }
+        match rec.lit {
+            Some(Ok(t)) => s.text("lit", Some(t)),
+            Some(Err(e)) => s.num("lit_err", u64::from(e)),
+            None => {}
         }
         s.end_row();
     }
     // second iteration API
     s.section("iter_tokens");
-    let mut n = 0u64;
+    let mut cnt = 0u64;
     let mut last = 0u64;
     for t in buf.iter_tokens() {
-        n += 1;
+        cnt += 1;
         last = u64::from(t.get());
     }
-    s.num("n", n);
+    s.num("n", cnt);
     s.num("last", last);
     s.end_row();
     s.section("literals");
     s.text("buffer", Some(buf.string_literals_buffer()));
     s.end_row();
     s.section("resolved");
-    for r in buf.into_resolved_token_vec() {
-        tick();
+    let resolved = resolved_first.unwrap_or_else(|| buf.into_resolved_token_vec());
+    for r in resolved {
+        if variant != 1 {
+            tick();
+        }
         s.num("i", u64::from(r.token_index));
         s.num("ch", r.channel as u64);
         s.num("ty", r.token_type as u64);
@@ -201,15 +266,20 @@ pub fn dump_errors<S: Sink>(s: &mut S, errors: &[ErrorInfo]) {
 }
 
 pub fn hash_result<A: AsRef<str>>(src: &A, res: &LexResult, tick: &mut dyn FnMut()) -> H128 {
+    hash_result_v(src, res, tick, 0)
+}
+
+/// Same dump, accessors called in another order (see `dump_buffer`).
+pub fn hash_result_v<A: AsRef<str>>(src: &A, res: &LexResult, tick: &mut dyn FnMut(), variant: u32) -> H128 {
     let mut s = HashSink(Hasher::new());
-    dump_buffer(&mut s, src, &res.buffer, tick);
+    dump_buffer(&mut s, src, &res.buffer, tick, variant);
     dump_errors(&mut s, &res.errors);
     s.0.finish()
 }
 
 pub fn text_result<A: AsRef<str>>(src: &A, res: &LexResult) -> String {
     let mut s = TextSink::default();
-    dump_buffer(&mut s, src, &res.buffer, &mut || {});
+    dump_buffer(&mut s, src, &res.buffer, &mut || {}, 0);
     dump_errors(&mut s, &res.errors);
     s.0
 }
